@@ -310,6 +310,10 @@ def lay5(ctx, c):
     for ln, name, start, step, node in order:
         c.check(start == 0 and step == 2, "get_binary_array:%s" % name, "every byte (2 hex digits) emitted", "range start %s step %s" % (start, step),
                 "get_binary_array walks the %s hex string from %s in steps of %s" % (name, start, step), repo.loc(f, node))
+        # the digits come from the same field whose length bounds the loop
+        srcs = set(re.findall(r"code_pkg\.(\w+)\.hex\(\)", U(node)))
+        c.check(srcs == {name}, "get_binary_array:%s:source" % name, "digits of %s" % name, "loop over %s reads digits of %s" % (name, sorted(srcs)),
+                "get_binary_array walks the length of %s but takes the digits from %s" % (name, sorted(srcs)), repo.loc(f, node))
         # the byte is built from digits index and index+1, base 16
         txt = U(node)
         good = re.search(r"\[%s\], \w+\[%s \+ 1\]" % (U(node.target), U(node.target)), txt) is not None and "int(hex_byte, 16)" in txt
